@@ -698,6 +698,15 @@ class Engine:
                 return [(s, VInt(ia - ib))]
             if isinstance(op, ast.Mult):
                 return [(s, VInt(ia * ib))]
+            if isinstance(op, ast.Div):
+                res = []
+                for s2, zero in self.branch(s, ib == 0, node):
+                    if zero:
+                        res.append((s2, Raised(VExc('ZeroDivisionError'))))
+                    else:
+                        # float result modelled as an exact real (exact for |operands| < 2**53: assumed)
+                        res.append((s2, VReal(z3.ToReal(ia) / z3.ToReal(ib))))
+                return res
             if isinstance(op, (ast.FloorDiv, ast.Mod)):
                 res = []
                 for s2, zero in self.branch(s, ib == 0, node):
@@ -796,6 +805,9 @@ class Engine:
             return z3.Not(self.contains(s, b, a, node))
         a, b = self.deref(s, a), self.deref(s, b)
         ia, ib = self.as_int(a), self.as_int(b)
+        if isinstance(a, VReal) or isinstance(b, VReal):
+            ia = a.z if isinstance(a, VReal) else (z3.ToReal(ia) if ia is not None else None)
+            ib = b.z if isinstance(b, VReal) else (z3.ToReal(ib) if ib is not None else None)
         if ia is not None and ib is not None:
             return {ast.Lt: ia < ib, ast.LtE: ia <= ib, ast.Gt: ia > ib, ast.GtE: ia >= ib}[type(op)]
         raise Unsupported(f'comparison {type(op).__name__} on {a!r}, {b!r} at line {node.lineno}')
@@ -1925,13 +1937,20 @@ class Engine:
         for n in sorted(names):
             if n in s.env:
                 s.env[n] = self.fresh_like(s, s.env[n], n)
+        rebase = {}
         for f in sorted(fields):
             rec = s.rec(self.self_ref)
             if f in rec.fields:
                 decl = self.spec.classes[rec.cls].get(f)
                 if decl is None:
                     raise Unsupported(f'havoc of undeclared field {f}')
-                s.set_field(self.self_ref, f, self.fresh(s, decl, 'loop_' + f))
+                v = self.fresh(s, decl, 'loop_' + f)
+                s.set_field(self.self_ref, f, v)
+                rebase[f] = v
+        # a loop-head state of a `while` loop whose state lives in fields can serve as an entry state for replay
+        live_locals = [n for n in names if n in s.env]
+        s.heap['__rebase__'] = None if (live_locals or s.heap.get('__rebase__', 0) is None or
+                                        '__rebase__' in s.heap) else (rebase, len(s.calls))
         return names, fields
 
     def fresh_like(self, s, v, label):
